@@ -69,6 +69,7 @@ static void            bufr_merge_tableD      ( EntryTableDArray table1, EntryTa
 static void            bufr_copy_EntryTableD  ( EntryTableD *r, const char *desc, int desclen,
                                                 int *descriptors, int count);
 static void            bufr_merge_TablesSet   ( BufrTablesSet *tbls1, BufrTablesSet *tbls2 );
+static void            bufr_flush_tableB_cache( BUFR_Tables *tbls );
 static int             strtlen                (char *Str);
 
 static char                  **bufr_csv_split_cells ( char *tmpstr, int *nbcell, int nb_alloc );
@@ -244,6 +245,10 @@ void bufr_merge_tables( BUFR_Tables *tbls1, BUFR_Tables *tbls2 )
    if ( tbls1 == NULL ) return;
    if ( tbls2 == NULL ) return;
 /*
+ * the master table B about to be released or replaced may be referenced by the lookup cache
+ */
+   bufr_flush_tableB_cache( tbls1 );
+/*
  * master tables are never copied on merged, only referenced
 
 */
@@ -283,6 +288,27 @@ void bufr_merge_tables( BUFR_Tables *tbls1, BUFR_Tables *tbls2 )
  * @author Vanh Souvanlasy
  * @ingroup internal
  */
+/**
+ * @english
+ * forget the entries remembered by bufr_fetch_tableB(): tableB_cache and last_searched
+ * hold pointers into the master and local table B arrays, so they must be dropped
+ * whenever one of these arrays is loaded, merged or released; otherwise a descriptor
+ * looked up before a local table is loaded keeps resolving to the master entry, and
+ * bufr_merge_tables() leaves pointers to freed entries behind.
+ * @param     tbls   : pointer to BUFR tables structure
+ * @endenglish
+ * @francais
+ * @todo translate to French
+ * @endfrancais
+ * @ingroup internal
+ */
+static void bufr_flush_tableB_cache( BUFR_Tables *tbls )
+   {
+   if (tbls->tableB_cache)
+      arr_free( &(tbls->tableB_cache) );
+   tbls->last_searched = NULL;
+   }
+
 static void bufr_merge_TablesSet( BufrTablesSet *tbls1, BufrTablesSet *tbls2 )
    {
 /*
@@ -373,6 +399,7 @@ static int bufr_load_tableB( BUFR_Tables *tables, BufrTablesSet *tbls, const cha
    int   data_cat;
    int   version;
 
+   bufr_flush_tableB_cache( tables );
    tbls->tableBtype = TYPE_ALLOCATED;
 
    data_cat_desc[0] = '\0';
@@ -2500,6 +2527,7 @@ int bufr_load_csv_tableB( BUFR_Tables *tables, const char *filename )
 
    tbls = &(tables->master);
    tbls->tableBtype = TYPE_ALLOCATED;
+   bufr_flush_tableB_cache( tables );
 
    if (tbls->tableB == NULL)
       {
